@@ -53,12 +53,14 @@ ASSUME {i.op : i \in AllIns} = AllOps
 
 (* decorations of an instruction line (the harness renders them) *)
 Decos == {"plain", "indent2", "tab", "comment", "commentcolon", "upper", "dollar", "commaspace", "nospace", "zeropad", "all"}
-FewDecos == {"plain", "comment", "commentcolon", "indent2", "zeropad"}
+FewDecos == {"plain", "comment", "commentcolon", "zeropad"}
 
 BadForms == {"missing_operand", "extra_operand", "unknown_register", "unknown_mnemonic", "hex_immediate",
              "word_immediate", "huge_immediate", "truncated_offset", "unclosed_offset", "garbage_after_register",
              "no_paren_offset", "empty_operand", "register_as_immediate", "lone_comma",
              "huge_offset", "huge_store_offset", "huge_addi", "huge_negative"}
+(* the multi-line runs use a reduced set (the other forms are covered by the one- and two-line runs) *)
+FewBad == BadForms \ {"huge_store_offset", "huge_addi", "huge_negative"}
 SilentForms == {"label_with_comment", "tab_separator", "label_with_space", "colon_only", "digit_label"}
 
 Line(k, ins, deco, name, form) == [k |-> k, ins |-> ins, deco |-> deco, name |-> name, form |-> form]
@@ -71,7 +73,7 @@ LineAlphabet ==
   \cup {Line("comment", NoIns, d, "", "") : d \in {"plain", "indented"}}
   \cup {Line("label", NoIns, d, n, "") : d \in {"plain", "indented"}, n \in {"L7", "loop"}}
   \cup {Line("ins", i, d, "", "") : i \in insSet, d \in decoSet}
-  \cup {Line("bad", NoIns, "", "", f) : f \in BadForms}
+  \cup {Line("bad", NoIns, "", "", f) : f \in (IF Rich THEN BadForms ELSE FewBad)}
   \cup {Line("silent", NoIns, "", "", f) : f \in SilentForms}
 
 (* marked register file: every register holds a distinct small aligned value *)
